@@ -16,6 +16,7 @@ package main
 import (
 	"bytes"
 	"context"
+	"encoding/base64"
 	"encoding/json"
 	"fmt"
 	"io"
@@ -91,6 +92,8 @@ func (c reqCase) inputTokens(withAttrs bool) string {
 				parts[i] = q.key + ":v." + q.val
 			case 'i':
 				parts[i] = q.key + ":i" + q.val
+			case 'g':
+				parts[i] = q.key + ":g"
 			default:
 				parts[i] = q.key + ":e"
 			}
@@ -307,6 +310,10 @@ func rawValue(q qparam) string {
 func (c reqCase) rawQuery() string {
 	var parts []string
 	for _, q := range c.query {
+		if q.class == 'g' {
+			parts = append(parts, url.QueryEscape(q.key)+"=%zz1") // a malformed percent-escape, sent as is
+			continue
+		}
 		parts = append(parts, url.QueryEscape(q.key)+"="+url.QueryEscape(rawValue(q)))
 	}
 	for _, kv := range c.meta {
@@ -352,6 +359,10 @@ func (c reqCase) setAuth(r *http.Request) {
 		r.Header.Set("Authorization", "Basic !!!not-base64!!!")
 	case "m1":
 		r.Header.Set("Authorization", "Bearer "+user0+":"+pass0)
+	case "m2":
+		r.Header.Set("Authorization", "Basic "+base64.StdEncoding.EncodeToString([]byte(user0+pass0))) // no colon
+	case "r2":
+		r.Header.Set("Authorization", "basic "+base64.StdEncoding.EncodeToString([]byte(user0+":"+pass0))) // scheme is case-insensitive
 	case "w0":
 		r.SetBasicAuth(user0, "wrong")
 	case "w1":
@@ -781,7 +792,7 @@ func authFor(r *common.Rng, creds bool) string {
 	if !creds {
 		return []string{"n", "n", "n", "r0", "w0", "m0"}[r.Intn(6)]
 	}
-	return []string{"n", "m0", "m1", "w0", "w1", "w2", "r0", "r0", "r0", "r1", "r1"}[r.Intn(11)]
+	return []string{"n", "m0", "m1", "m2", "w0", "w1", "w2", "r0", "r0", "r0", "r1", "r1", "r2"}[r.Intn(13)]
 }
 
 // genReq draws one random request.
@@ -840,6 +851,8 @@ func genReq(r *common.Rng) reqCase {
 			switch {
 			case r.Chance(1, 12):
 				c.query = append(c.query, qparam{key: k, class: 'e'})
+			case r.Chance(1, 40):
+				c.query = append(c.query, qparam{key: k, class: 'g'})
 			case r.Chance(1, 9) && k != "name":
 				c.query = append(c.query, optValue(r, k, true))
 			default:
@@ -930,7 +943,7 @@ func sysCases() []reqCase {
 	auths := []struct {
 		cr bool
 		au string
-	}{{false, "n"}, {false, "w0"}, {true, "n"}, {true, "m0"}, {true, "m1"}, {true, "w0"}, {true, "w1"}, {true, "w2"}, {true, "r0"}, {true, "r1"}}
+	}{{false, "n"}, {false, "w0"}, {true, "n"}, {true, "m0"}, {true, "m1"}, {true, "w0"}, {true, "w1"}, {true, "w2"}, {true, "r0"}, {true, "r1"}, {true, "m2"}, {true, "r2"}}
 	for ti, t := range templates {
 		for _, m := range methods {
 			for bad := -1; bad < nvars(t); bad++ {
@@ -999,7 +1012,7 @@ func sysCases() []reqCase {
 			for v := 0; v < 3; v++ {
 				qs = append(qs, optValue(r, k, false))
 			}
-			qs = append(qs, qparam{key: k, class: 'e'})
+			qs = append(qs, qparam{key: k, class: 'e'}, qparam{key: k, class: 'g'})
 			if k != "name" && k != "user-allocations" {
 				for v := 0; v < 4; v++ {
 					qs = append(qs, qparam{key: k, class: 'i', val: strconv.Itoa(v)})
@@ -1035,6 +1048,8 @@ func sysCases() []reqCase {
 			{{key: "name", class: 'v', val: "1"}, {key: "name", class: 'v', val: "2"}},
 			{{key: "mode", class: 'v', val: "d"}, {key: "mode", class: 'i', val: "0"}},
 			{{key: "mode", class: 'i', val: "1"}, {key: "mode", class: 'v', val: "d"}},
+			{{key: "name", class: 'g'}, {key: "name", class: 'v', val: "2"}},
+			{{key: "replication-min", class: 'v', val: "1"}, {key: "replication-min", class: 'g'}},
 			{{key: "name", class: 'v', val: "7"}, {key: "mode", class: 'v', val: "d"}, {key: "replication-min", class: 'v', val: "-1"}, {key: "replication-max", class: 'v', val: "-1"},
 				{key: "shard-size", class: 'v', val: "1024"}, {key: "user-allocations", class: 'v', val: "1,2"}, {key: "expire-at", class: 'v', val: "f2"},
 				{key: "pin-update", class: 'v', val: "5"}, {key: "origins", class: 'v', val: "1,2"}},
